@@ -13,10 +13,35 @@ import time
 import common as C
 import gen as G
 
-THEOREMS = ['promotion_table_is_numpy', 'fill_ok_promote', 'mergemany_app_partial', 'mergemany_valid_partial',
-            'mergemany_dtype_partial', 'concat_app_partial', 'mergemany_option_mix_partial',
-            'merge_as_union_app', 'merge_as_union_valid', 'simplify_option_value', 'simplify_option_flat',
-            'simplify_union_value_partial', 'astype_only_casts_partial']
+THEOREMS = ['promotion_table_is_numpy',
+            'fill_ok_promote',
+            'mergemany_app_partial',
+            'mergemany_valid_partial',
+            'mergemany_dtype_partial',
+            'concat_app_partial',
+            'mergemany_option_mix_partial',
+            'merge_as_union_app',
+            'merge_as_union_valid',
+            'simplify_option_value',
+            'simplify_option_flat',
+            'simplify_union_value_partial',
+            'astype_only_casts_partial',
+            'mergemany_records_partial',
+            'trim_takes_prefix',
+            'mergemany_union_first',
+            'mergemany_union_first_valid',
+            'mergemany_union_later_partial',
+            'simplify_union_false_total_partial',
+            'concat_two_different',
+            'concat_group_then_different_partial',
+            'simplify_union_single',
+            'simplify_union_merge_distinct',
+            'simplify_union_merge_partial',
+            'simplify_union_merge_nobool_partial',
+            'simplify_union_false_frag_total_partial',
+            'astype_only_casts',
+            'astype_frag_of_valid',
+            'astype_only_casts_valid']
 DRIVERS = ('mergedrv',)
 NEEDS_SAN = True
 COQ_DIR = '/verif/c08/coq'
